@@ -947,6 +947,9 @@ class CompositeEnvelope:
             state_order.extend(product_state.state_objs)
             product_state.state_objs = []
         for so in target_state_objs:
+            # Already included together with its (combined) envelope partner
+            if any(so is included for included in state_order):
+                continue
             if (
                 hasattr(so, "envelope")
                 and so.envelope is not None
